@@ -1,40 +1,67 @@
-import CalicoVerif.Proofs.C15m
+import CalicoVerif.Proofs.C15s
 /-!
 C15 — iptables sync converges and leaves other software's rules alone (legacy iptables backend).
 Property theorems over the model `CalicoVerif.Model.C15` of felix/iptables/table.go and of
 iptables-save and iptables-restore (atomic transactions).  Rule hashes are uninterpreted (supplied by the real
 renderer on every correspondence run).
 
-The convergence clause is proved for one `Apply` iteration that re-reads the table and whose transaction
-succeeds (which is how every `Apply` ends: it retries, re-reading after each failure, until a transaction
-succeeds): `apply_converges_owned` (owned chains = desired exactly and in order, stale Felix chains gone) and
-`apply_converges_hooks` (hook rules at the configured position and order, stale Felix rules gone, other
-software's rules unchanged).  Hypotheses, all explicit: hash soundness (a kernel rule carrying the hash of the
-desired rule at its position IS that rule: hashes are collision-free, chained tags), `CacheOK` (for clean owned
-chains the cache of programmed hashes equals the desired hashes; the harness checks it on the real code after
-every operation) and the name-space conventions of the callers.
-NOT proved in Lean: `CacheOK` as an inductive invariant of the refcounting API, the case of a shared chain whose
-hooks are already in sync, and the nftables backend.
+Convergence for Felix's own chains is proved end to end (`apply_converges_owned_chains`): after ANY history of
+API calls, restarts, foreign edits of the table and Applies with any failures, from any start table, an `Apply`
+that returns — over its whole retry loop, with any iptables-save or iptables-restore failures — leaves every Felix-owned chain
+name holding exactly the desired rules in order, or absent.  The invariant behind it (`TInv`: the cache of
+programmed hashes equals the desired hashes for clean chains, ...) is proved inductive over every operation
+(`invariant_always`).  Explicit assumptions: the Apply re-reads the table (cache marked invalid — as after every
+API change, refresh, restart or failed Apply); nobody edits the table between that read and the write; hash
+soundness (`HashSound`: a kernel rule carrying a desired rule's hash IS that rule); hook rules are only put into
+chains outside Felix's name space.
+Convergence for hook rules in shared chains is proved only for one iteration and only when the hooks are out of
+sync (`apply_converges_hooks_partial`): NOT lifted over the retry loop/histories.  The nftables backend is not
+modelled.
 -/
 namespace CalicoVerif.C15
 
-/-- **apply_converges, owned chains**: from ANY kernel table, one `Apply` iteration that re-reads the table and
-whose transaction succeeds leaves every Felix-owned chain name holding exactly the desired rules in the desired
-order if the chain is desired (present in Felix's state and referenced), and not existing otherwise: stale
-Felix chains, including ones with historic prefixes, are gone. -/
-theorem apply_converges_owned_chains (t : T) (K K' : Kernel) {lines newH newFull}
-    (hcache : CacheOK t) (hnodup : t.dirty.Nodup) (hIA : ∀ c, t.ours c = true → c ∉ t.dirtyIA)
+/-- **The invariant** holds after every history from a new `Table`: well-formed API calls (hook rules go to
+chains outside Felix's name space), restarts, foreign edits of the table, and `Apply` with any iptables-save /
+iptables-restore failures and out-of-band edits, whether it returns or panics. -/
+theorem invariant_always (P : List String) (hk : ∀ c ∈ kernelChains, oursP P c = false) (mode : Bool) (K0 : Kernel)
+    (ops : List Op) (hwf : ∀ o ∈ ops, o.wf P) : TInv (({ t := T.new P mode, K := K0 } : W).run ops).t :=
+  (run_pinv hk ops { t := T.new P mode, K := K0 } hwf ⟨TInv.new P mode hk, rfl⟩).1
+
+/-- **apply_converges, owned chains**: from ANY start table `K0`, after ANY history `ops` (API calls, restarts,
+foreign edits of the table, earlier Applies with any failures), if `Apply` — begun with the cache marked out of
+date, run with any iptables-save failures `sf` and iptables-restore failures `rf` over its whole retry loop,
+with nobody editing the table between Felix's read and its write — returns, then every Felix-owned chain name
+holds exactly the desired rules in the desired order if the chain is desired (present in Felix's state and
+referenced), and does not exist otherwise: stale Felix chains, including ones with historic prefixes, are gone. -/
+theorem apply_converges_owned_chains (P : List String) (hk : ∀ c ∈ kernelChains, oursP P c = false) (mode : Bool)
+    (K0 : Kernel) (ops : List Op) (hwf : ∀ o ∈ ops, o.wf P) (sf rf : List Bool) :
+    let w : W := { ({ t := T.new P mode, K := K0 } : W).run ops with saveFails := sf, restoreFails := rf, pre := none, trace := [] }
+    w.t.inSync = false → HashSound w.t w.K → w.apply.2 = true →
+    ∀ c, oursP P c = true → c ≠ "" →
+      w.apply.1.K.get c = (w.t.desiredChain c).map (fun ch => ch.rules.map DRule.k) := by
+  intro w hns hs hok c ho hne
+  obtain ⟨hinv, hp⟩ := run_pinv hk ops { t := T.new P mode, K := K0 } hwf ⟨TInv.new P mode hk, rfl⟩
+  have hinv' : TInv w.t := hinv
+  have hp' : w.t.prefixes = P := hp
+  exact (apply_converges_loop w hinv' hs hns rfl hok).conv c (by rw [ours_eq, hp']; exact ho) hne
+
+/-- One iteration, as a stand-alone statement (the step the theorem above iterates): from ANY kernel table, one
+`Apply` iteration that re-reads the table and whose transaction succeeds. -/
+theorem apply_iteration_owned_chains (t : T) (K K' : Kernel) {lines newH newFull}
+    (hinv : TInv t)
     (hsound : ∀ c ch rs, t.ours c = true → t.desiredChain c = some ch → K.get c = some rs → Sound rs ch.rules)
     (hplan : (t.load K).plan = some (lines, newH, newFull)) (hres : krestore K lines = some K')
     (c : String) (hours : t.ours c = true) (hne : c ≠ "") :
     K'.get c = (t.desiredChain c).map (fun ch => ch.rules.map DRule.k) :=
-  apply_converges_owned t K K' hcache hnodup hIA hsound hplan hres c hours hne
+  apply_converges_owned t K K' hinv.cache hinv.nodup hinv.iaForeign hsound hplan hres c hours hne
 
-/-- **apply_converges, hook rules**: the same iteration, for a shared (kernel) chain `c` whose hooks are out of
+/-- **apply_converges, hook rules** (partial: ONE iteration that re-reads the table and whose transaction
+succeeds, and only when the chain's hooks are out of sync (`hnot`); not lifted over the retry loop or over
+histories; the hypotheses on `dirtyChains`/`dirtyInsertAppend` are not proved invariant).  For a shared (kernel) chain `c` whose hooks are out of
 sync: afterwards it holds Felix's insert rules at the configured end (top in insert mode, after the other
 software's rules in append mode) in the configured order, then the append rules last, and the other software's
 rules exactly as they were and in the same order; every stale Felix rule (unknown hash, old-style insert) is gone. -/
-theorem apply_converges_hooks (t : T) (K K' : Kernel) {lines newH newFull} (c : String) (rs : List KRule)
+theorem apply_converges_hooks_partial (t : T) (K K' : Kernel) {lines newH newFull} (c : String) (rs : List KRule)
     (hkeys : K.keys.Nodup) (hno : t.ours c = false) (hne : c ≠ "")
     (hdirtyOurs : ∀ x ∈ t.dirty, t.ours x = true) (hnodupIA : t.dirtyIA.Nodup)
     (hK : K.get c = some rs) (hhash : HashNonEmpty rs)
@@ -89,10 +116,6 @@ theorem no_rewrite_if_equal (c : String) (n : Nat) (rs : List DRule) (i : Nat) :
     diffLines c n i (rs.map (·.hash)) rs = [] :=
   diffLines_nil_of_eq c n rs i
 
-/-- A failing transaction changes nothing (atomicity is by construction: `krestore` returns `none`). -/
-theorem failed_restore_changes_nothing (w : W) (lines : List RLine) (h : krestore w.K lines = none) :
-    (match krestore w.K lines with | some K' => K' | none => w.K) = w.K := by rw [h]
-
 /-! ### Non-vacuity -/
 
 example : FullOK (T.new [] true) := by
@@ -123,9 +146,76 @@ example : (krestore exK (diffLines "cali-a" 2 0 ["h1", "old", "x"]
     [⟨"h1", "--jump DROP", none⟩, ⟨"h2", "--jump ACCEPT", none⟩])).map (fun K => K.get "cali-a") =
     some (some [KRule.felix "h1" "--jump DROP", KRule.felix "h2" "--jump ACCEPT"]) := by
   simp [diffLines, krestore, kline, exK, Map.get, Map.set, Map.erase, List.lookup, DRule.k]
+/-- `CacheOK exT`: the only owned chain with a desired state is dirty; nothing is cached for the others. -/
+example : CacheOK exT := by
+  intro c _ hnd
+  have hd : exT.dirty = ["cali-a"] := by decide
+  have hc : exT.chains = [("cali-a", ⟨[⟨"h1", "--jump DROP", none⟩, ⟨"h2", "--jump ACCEPT", none⟩], true⟩)] := by decide
+  have hp : exT.dpHashes = [] := by decide
+  rw [hd] at hnd
+  have hne : c ≠ "cali-a" := by simpa using hnd
+  have hg : exT.chains.get c = none := by
+    have hb : (c == "cali-a") = false := by simp [hne]
+    rw [hc]; simp only [Map.get, List.lookup, hb]
+  have hg' : List.lookup c exT.chains = none := hg
+  simp only [T.desiredChain, hp, Map.get, List.lookup, hg']
+  split <;> rfl
+/- The iteration the convergence theorems talk about exists for `exT`/`exK`: the plan after re-reading the table
+is defined, its transaction succeeds, and the owned chain ends up as desired while the foreign rule stays. -/
+#guard ((exT.load exK).plan).isSome
+#guard (((exT.load exK).plan).bind (fun p => krestore exK p.1)).isSome
+#guard (((exT.load exK).plan).bind (fun p => krestore exK p.1)).map (fun K => (K.get "cali-a", K.get "FORWARD")) ==
+  some (some [KRule.felix "h1" "--jump DROP", KRule.felix "h2" "--jump ACCEPT"], some [KRule.foreign "-j DOCKER"])
 example : HashNonEmpty [KRule.old "-j felix-FORWARD", KRule.foreign "-j DOCKER", KRule.felix "OLDHASH" "--jump DROP"] := by
   intro r hr
   simp only [List.mem_cons, List.not_mem_nil, or_false] at hr
   rcases hr with rfl | rfl | rfl <;> simp [KRule.hash, KRule.isForeign]
+
+/-! Non-vacuity of `apply_converges_owned_chains`: the real prefixes, a start table with a stale copy of a Felix
+chain, a stale Felix chain nobody wants and a foreign rule; a history with an API call, an Apply whose first save and first transaction fail,
+a foreign edit of the Felix chain, a stale Felix chain appearing, and a refresh; then an Apply with failures. -/
+def exP : List String := ["cali-", "califw-", "calitw-", "califh-", "calith-", "calipi-", "calipo-", "felix-"]
+def exOps : List Op :=
+  [Op.chain "cali-a" ⟨[⟨"h1", "--jump DROP", none⟩, ⟨"h2", "--jump ACCEPT", none⟩], true⟩,
+   Op.apply [true] [true] none,
+   Op.kchain "cali-a" [KRule.felix "h1" "--jump DROP", KRule.felix "zz" "--jump RETURN"],
+   Op.kchain "cali-stale" [KRule.felix "q" "--jump RETURN"],
+   Op.invalidate]
+def exW : W := { ({ t := T.new exP true, K := exK } : W).run exOps with saveFails := [true, false], restoreFails := [true, false], pre := none, trace := [] }
+
+example : ∀ c ∈ kernelChains, oursP exP c = false := by decide
+example : ∀ o ∈ exOps, o.wf exP := by
+  intro o ho
+  simp only [exOps, List.mem_cons, List.not_mem_nil, or_false] at ho
+  rcases ho with rfl | rfl | rfl | rfl | rfl <;> trivial
+#guard !exW.dead
+#guard !exW.t.inSync
+#guard exW.apply.2
+#guard exW.K.get "cali-a" == some [KRule.felix "h1" "--jump DROP", KRule.felix "zz" "--jump RETURN"]
+#guard exW.apply.1.K.get "cali-a" == some [KRule.felix "h1" "--jump DROP", KRule.felix "h2" "--jump ACCEPT"]
+#guard exW.apply.1.K.get "cali-stale" == none
+#guard exW.apply.1.K.get "FORWARD" == some [KRule.foreign "-j DOCKER"]
+#guard exW.t.refd "cali-a" && exW.t.chains.keys == ["cali-a"]
+/-- `HashSound` for a table like `exW`'s: the only kernel rule in `cali-a` that carries the hash of a desired rule
+(`h1`) is that rule. -/
+example : HashSound exT [("cali-a", [KRule.felix "h1" "--jump DROP", KRule.felix "zz" "--jump RETURN"]),
+    ("cali-stale", [KRule.felix "q" "--jump RETURN"])] := by
+  intro c ch rs _ hd hk r hr d hdm hh
+  have hc : exT.chains = [("cali-a", ⟨[⟨"h1", "--jump DROP", none⟩, ⟨"h2", "--jump ACCEPT", none⟩], true⟩)] := by decide
+  by_cases hca : c = "cali-a"
+  · subst hca
+    have hd' : exT.desiredChain "cali-a" = some ⟨[⟨"h1", "--jump DROP", none⟩, ⟨"h2", "--jump ACCEPT", none⟩], true⟩ := by decide
+    rw [hd'] at hd
+    simp only [Option.some.injEq] at hd
+    subst hd
+    simp only [Map.get, List.lookup, beq_self_eq_true, Option.some.injEq] at hk
+    subst hk
+    simp only [List.mem_cons, List.not_mem_nil, or_false] at hr hdm
+    rcases hr with rfl | rfl <;> rcases hdm with rfl | rfl <;> simp [KRule.hash, DRule.k] at hh ⊢
+  · exfalso
+    have hb : (c == "cali-a") = false := by simp [hca]
+    have hg : List.lookup c exT.chains = none := by rw [hc]; simp only [List.lookup, hb]
+    simp only [T.desiredChain, Map.get, hg] at hd
+    split at hd <;> simp at hd
 
 end CalicoVerif.C15
